@@ -106,6 +106,7 @@ type Run struct {
 	noSched    int
 	curFrame   *frame
 	watched    map[*value]string
+	pools      map[*value][]value
 	pcHard          bool
 	hardScanned     int
 	altModel        map[string]uint64
